@@ -63,7 +63,9 @@ def c04_runs(tier):
     runs = []
     for cfg in (C04_ALL if tier == "thorough" else C04_QUICK):
         for p in C04_PROPS:
-            runs.append({"engine": "core", "cfg": cfg, "prop": p, "tag": p})
+            # thorough: the three diagonal builds run the deep enumerations, the other six the quick ones
+            sub = "thorough" if (tier == "thorough" and cfg in C04_QUICK) else "quick"
+            runs.append({"engine": "core", "cfg": cfg, "prop": p, "tag": p, "tier": sub})
     if tier == "thorough":
         for cfg in ["best", "no_avx512", "no_avx2", "no_sse41", "no_sse2"]:
             runs.append({"engine": "stock", "cfg": cfg, "prop": "C04", "tag": "stock"})
